@@ -142,6 +142,8 @@ pub struct W {
     pub empty_refs: u32,
     /// weight of a Publish request that carries no message
     pub empty_publish: u32,
+    /// one case in `uptime_jump` starts after 200 days of uptime (0 = never)
+    pub uptime_jump: u32,
     pub payload_rich: bool,
     /// weight of multi-megabyte payloads among the plain ones (of about 46)
     pub big_payload: u32,
@@ -195,6 +197,7 @@ impl Default for W {
             malformed_refs: 0,
             empty_refs: 1,
             empty_publish: 0,
+            uptime_jump: 0,
             payload_rich: false,
             big_payload: 1,
             push_variants: vec![0],
@@ -372,8 +375,13 @@ pub fn arb_setup(w: &W, topics: std::ops::RangeInclusive<u8>, subs: std::ops::Ra
 }
 
 pub fn arb_case(w: W, topics: std::ops::RangeInclusive<u8>, subs: std::ops::RangeInclusive<u8>, body: std::ops::Range<usize>, points: usize) -> BoxedStrategy<Case> {
-    (any::<u64>(), arb_phase(), any::<u64>(), arb_points(points), arb_setup(&w, topics, subs), vec(arb_op(&w), body))
-        .prop_map(|(sched_seed, phase_us, fanout_seed, points, mut setup, body)| {
+    let jump = w.uptime_jump;
+    (any::<u64>(), arb_phase(), any::<u64>(), arb_points(points), arb_setup(&w, topics, subs), vec(arb_op(&w), body), 0u32..jump.max(1))
+        .prop_map(move |(sched_seed, phase_us, fanout_seed, points, mut setup, body, j)| {
+            if jump > 0 && j == 0 {
+                // a server that has been up for 200 days when the history begins
+                setup.push(Op::Advance { ms: 17_280_000_123 });
+            }
             setup.extend(body);
             Case { sched_seed, phase_us, fanout_seed, points, ops: setup }
         })
